@@ -2385,7 +2385,7 @@ class Verifier(Exec):
         for ins in blk['instrs']:
             op = ins['op']
             if self.is_cut(ins.get('line')):
-                self.ctx.notes.append('unbounded verification of %s stops at line %d (%s); the rest of the function is covered by bounded checks only' % (short_fn(self.fname), ins['line'], self.cut_reason))
+                self.ctx.notes.append('unbounded verification of %s stops at line %d (%s); the rest of the function is NOT verified' % (short_fn(self.fname), ins['line'], self.cut_reason))
                 self.cut_pcs.append(st.pc)
                 return
             if op == 'Phi':
